@@ -34,15 +34,15 @@ type deployScript struct {
 }
 
 type execScript struct {
-	Out        string `json:"out"`         // output id to return ("success", "alt", "error", "cancelled_early", or undeclared e.g. "bogus")
-	DelayMS    int    `json:"delay_ms"`    // sleep before returning
-	Hang       bool   `json:"hang"`        // never return by itself (until cancel signal / server context done)
-	Crash      bool   `json:"crash"`       // the plugin dies: its connection breaks without a result
-	OnCancel   string `json:"on_cancel"`   // "" = return cancelled_early when the cancel signal arrives; "ignore" = keep going
-	BadData    bool   `json:"bad_data"`    // return data that does not match the declared output schema
-	N          int64  `json:"n"`           // value of output field n
-	L          []string `json:"l"`         // value of output field l
-	WaitGate   string `json:"wait_gate"`   // wait until the harness releases this named gate
+	Out      string   `json:"out"`       // output id to return ("success", "alt", "error", "cancelled_early", or undeclared e.g. "bogus")
+	DelayMS  int      `json:"delay_ms"`  // sleep before returning
+	Hang     bool     `json:"hang"`      // never return by itself (until cancel signal / server context done)
+	Crash    bool     `json:"crash"`     // the plugin dies: its connection breaks without a result
+	OnCancel string   `json:"on_cancel"` // "" = return cancelled_early when the cancel signal arrives; "ignore" = keep going
+	BadData  bool     `json:"bad_data"`  // return data that does not match the declared output schema
+	N        int64    `json:"n"`         // value of output field n
+	L        []string `json:"l"`         // value of output field l
+	WaitGate string   `json:"wait_gate"` // wait until the harness releases this named gate
 }
 
 type stepScript struct {
